@@ -3,6 +3,7 @@ package main
 import (
 	"fmt"
 	"go/ast"
+	"go/constant"
 	"go/token"
 	"go/types"
 	"sort"
@@ -59,7 +60,7 @@ func checkC01(c *Ctx) {
 		"evaluator, every other operator constant to a case of its evaluator, each comparison constant to the function of the same relation (the Go comparison token inside is checked) with 不为//= negating; " +
 		"(C01.zero) every float division in the evaluator and in 除 is dominated by a test of the same divisor against 0 whose true edge returns an error; (C01.floor) | is Floor(a/b) and % is a − Floor(a/b)·b on the two operand values " +
 		"(expression DAG match); (C01.short) the truth table of 且/或 extracted from evalLogicCombiner: the right operand is evaluated exactly when the left one does not decide, results equal ∧/∨, non-booleans are errors; " +
-		"(C01.types) arithmetic and ordering assert *Number comma-ok with an error otherwise. (C01.literal) a numeric literal's value comes from strconv.ParseFloat on every path (no integer parsing / int-to-float conversion). NOT decided: IEEE results themselves (delegated to Go's float64), literal->double rounding (C04), structural equality of nested values beyond the rules of C11."
+		"(C01.types) arithmetic and ordering assert *Number comma-ok with an error otherwise. (C01.literal) a numeric literal's value comes from strconv.ParseFloat on every path (no integer parsing / int-to-float conversion). NOT decided: IEEE results themselves (delegated to Go's float64), literal->double rounding (C04), structural equality of nested values beyond the rules of C11. (C01.eqsize) lists and dictionaries compare equal only behind a test that their sizes are equal (no prefix equals the whole)."
 	R.Assumptions = []string{"Go float64 arithmetic is IEEE-754 double", "math.Floor is floor"}
 	u := c.Core()
 	u.buildSSA()
@@ -538,6 +539,69 @@ func checkC01(c *Ctx) {
 			}
 		}
 		R.check(ok, "C01.floor", "evalArithTypeModuloExpr:%", u.pos(f.Pos()), "a % b yields a − Floor(a/b)·b", "remainder is not computed as a − Floor(a/b)·b on the two operands")
+	}
+
+	// ---- C01.eqsize: structural equality of lists and dictionaries answers "equal" only for operands of the same
+	// size: every `return true` that lies behind an element loop is dominated by the equal edge of a comparison of the
+	// two sizes (otherwise a proper prefix equals the longer list and equality is asymmetric)
+	if f := u.ssaFunc("pkg/exec", "compareLogicXEQ"); f != nil {
+		isLen := func(v ssa.Value) bool {
+			call, ok := v.(*ssa.Call)
+			if !ok {
+				return false
+			}
+			bi, ok := call.Call.Value.(*ssa.Builtin)
+			return ok && bi.Name() == "len"
+		}
+		headers := loopHeaders(f)
+		nTrue := 0
+		for _, b := range f.Blocks {
+			ret, ok := b.Instrs[len(b.Instrs)-1].(*ssa.Return)
+			if !ok || len(ret.Results) != 2 {
+				continue
+			}
+			k, isK := retValue(ret, 0).(*ssa.Const)
+			if !isK || k.Value == nil || k.Value.Kind() != constant.Bool || !constant.BoolVal(k.Value) {
+				continue
+			}
+			behindLoop := false
+			for _, h := range headers {
+				if reachableAvoiding(h, 0, func(x ssa.Instruction) bool { return x == ssa.Instruction(ret) }, nil) != nil {
+					behindLoop = true
+				}
+			}
+			if !behindLoop {
+				continue
+			}
+			nTrue++
+			okSize := false
+			for _, d := range f.Blocks {
+				ifi, isIf := d.Instrs[len(d.Instrs)-1].(*ssa.If)
+				if !isIf {
+					continue
+				}
+				bo, isB := ifi.Cond.(*ssa.BinOp)
+				if !isB || !isLen(bo.X) || !isLen(bo.Y) {
+					continue
+				}
+				var eq *ssa.BasicBlock
+				switch bo.Op {
+				case token.NEQ:
+					eq = d.Succs[1]
+				case token.EQL:
+					eq = d.Succs[0]
+				}
+				if eq != nil && edgeDominates(d, eq, b) {
+					okSize = true
+				}
+			}
+			R.check(okSize, "C01.eqsize", fmt.Sprintf("compareLogicXEQ:equal-after-loop#%d", nTrue), u.pos(ret.Pos()), "collections compare equal only behind a test that their sizes are equal", "a list / dictionary can compare equal to a longer one: the answer 'equal' behind the element loop is not guarded by a comparison of the two sizes (a proper prefix equals the whole; 为 is no longer symmetric)")
+		}
+		if nTrue < 2 {
+			R.viol("C01.eqsize", "compareLogicXEQ:instances", u.pos(f.Pos()), fmt.Sprintf("expected the list and the dictionary comparison loops, found %d", nTrue))
+		}
+	} else {
+		R.lost("C01.eqsize", "pkg/exec.compareLogicXEQ")
 	}
 
 	// ---- C01.short : truth table of 且 / 或
